@@ -1,43 +1,43 @@
 From Coq Require Import List Arith NArith ZArith QArith Bool Lia.
+(* Frozen model of add_parameter as it was BEFORE the repair (commit 407a2d5 in /repo): kept as a regression witness. *)
 Import ListNotations.
 Require Import NV.PriorModel.
 
 (* the UNCHANGED add_parameter: the key is appended before the distribution is validated, auto keys are not checked.
    An exception leaves a (possibly modified) prior behind, so the result carries the state in both cases. *)
-Inductive res2 := Ok2 (p : prior) | Err2 (p : prior) (e : err).
-Definition add_asis (p : prior) (rk : rawkey) (rd : rawdist) : res2 :=
+Definition add_asis (p : prior) (rk : rawkey) (rd : rawdist) : res :=
   match rk with
-  | KBad => Err2 p TypeErr
+  | KBad => Err p TypeErr
   | _ =>
     let ok := match rk with KNone => Some (Auto (length (keys p))) | KStr k => if memk k (keys p) then None else Some k | KBad => None end in
     match ok with
-    | None => Err2 p ValueErr
+    | None => Err p ValueErr
     | Some k =>
       let p1 := mkP (keys p ++ [k]) (dists p) in
       match rd with
-      | RBad => Err2 p1 TypeErr
-      | RFree f => Ok2 (mkP (keys p1) (dists p ++ [DFree f]))
-      | RFixed v => Ok2 (mkP (keys p1) (dists p ++ [DFixed v]))
+      | RBad => Err p1 TypeErr
+      | RFree f => Ok (mkP (keys p1) (dists p ++ [DFree f]))
+      | RFixed v => Ok (mkP (keys p1) (dists p ++ [DFixed v]))
       | RLink t =>
         (* `dist not in self.keys or dist == str(key)`; the key was already appended, so a self link is "in keys" and caught by the second test *)
-        if negb (memk t (keys p1)) || (match rk with KStr k0 => kid_eqb t k0 | _ => false end) then Err2 p1 ValueErr else
+        if negb (memk t (keys p1)) || (match rk with KStr k0 => kid_eqb t k0 | _ => false end) then Err p1 ValueErr else
         match lookup t (keys p) (dists p) with
-        | Some (DLink t') => Ok2 (mkP (keys p1) (dists p ++ [DLink t']))
-        | Some _ => Ok2 (mkP (keys p1) (dists p ++ [DLink t]))
-        | None => Err2 p1 IndexErr      (* self link through an automatic key, or misaligned lists after an earlier rejection *)
+        | Some (DLink t') => Ok (mkP (keys p1) (dists p ++ [DLink t']))
+        | Some _ => Ok (mkP (keys p1) (dists p ++ [DLink t]))
+        | None => Err p1 IndexErr      (* self link through an automatic key, or misaligned lists after an earlier rejection *)
         end
       end
     end
   end.
 
 (* the property fails on the as-is model: a rejected declaration changes the prior *)
-Example C15_asis_reject_refuted : exists p rk rd p' e, add_asis p rk rd = Err2 p' e /\ p' <> p.
+Example C15_asis_reject_refuted : exists p rk rd p' e, add_asis p rk rd = Err p' e /\ p' <> p.
 Proof.
   exists (mkP [Named 1] [DFree (FUniform 0 1)]), (KStr (Named 2)), (RLink (Named 9)).
   eexists. eexists. split; [vm_compute; reflexivity|]. intros H. discriminate.
 Qed.
 (* and a key can appear twice: declare "x_1" by name, then ask for an automatic key *)
-Example C15_asis_dup_refuted : exists p rk rd p', add_asis p rk rd = Ok2 p' /\ ~ NoDup (keys p').
+Example C15_asis_dup_refuted : exists p rk rd p', add_asis p rk rd = Ok p' /\ ~ NoDup (keys p').
 Proof.
   exists (mkP [Auto 1] [DFree (FUniform 0 1)]), KNone, (RFixed 3). eexists. split; [vm_compute; reflexivity|].
   intros H. inversion H; subst. apply H2. now left.
